@@ -172,8 +172,20 @@ pub fn render(r: &Resolved, style: u8) -> String {
             }
         }
     }
-    let half = (style as u32 * 7) % 50;
-    let full = 1 + r.moves.len() / 2;
+    // counters over their whole legitimate range: halfmove clock 0-150 (the seventy-five-move rule ends a game
+    // there), move number up to 6000 (longer than any possible game) - with the boundary values of narrow integer types
+    let h = mix(style as u64 * 131 + r.moves.len() as u64);
+    let half: u64 = match h % 4 {
+        0 => (style as u64 * 7) % 50,
+        1 => [0u64, 49, 50, 99, 100, 101, 127, 128, 149, 150][(h >> 8) as usize % 10],
+        _ => (h >> 8) % 151,
+    };
+    let full: u64 = match (h >> 4) % 4 {
+        0 => 1 + r.moves.len() as u64 / 2,
+        1 => [1u64, 127, 128, 255, 256, 257, 999, 1000, 4095, 6000][(h >> 16) as usize % 10],
+        _ => 1 + (h >> 16) % 6000,
+    }
+    .max(half / 2 + 1);
     match style % 3 {
         0 => p.fen4(),
         1 => format!("{} {}", p.fen4(), half),
@@ -350,7 +362,7 @@ impl Prop for C17 {
     }
 
     fn rule(&self) -> String {
-        "Cases: a well-formed FEN rendered by the reference model from the end of a generated walk (4, 5 or 6 fields; en-passant square FIDE-style after every double push or only when capturable), then 0-3 generated edits (insert / delete / replace / duplicate / truncate / swap at a generated offset inside a generated field; alphabet biased to the grammar: digits 0-9, piece letters of both cases, '/', '-', space, a-z, A-Z, é š ♔, tab, control byte, and two dozen non-ASCII characters that the standard library's `char` predicates class with digits, letters or blanks: digits of other scripts, superscripts, fractions, letter-like numerals, the Kelvin sign, full-width forms, no-break and ideographic spaces, dashes). Oracle: never panics; a string the strict reference reader accepts as a sane position must import as exactly that position (fields 1-4, hash by the key-file combiner, legal list); any other string must be refused, or be imported as the position its most lenient documented reading (canonicalisation T) describes. About 1 case in 250 is also sent to the real binary (`position fen S`, `isready`, `show`, `quit`). Thorough adds a libFuzzer campaign on the same oracle. evaluations = strings judged. Non-trivial: a mutant the strict reader rejects and whose canonical form differs from the unedited text's; distinct by string; classes by field reported.".into()
+        "Cases: a well-formed FEN rendered by the reference model from the end of a generated walk (4, 5 or 6 fields, halfmove clock 0-150 and move number 1-6000 with the boundary values of narrow integer types; en-passant square FIDE-style after every double push or only when capturable), then 0-3 generated edits (insert / delete / replace / duplicate / truncate / swap at a generated offset inside a generated field; alphabet biased to the grammar: digits 0-9, piece letters of both cases, '/', '-', space, a-z, A-Z, é š ♔, tab, control byte, and two dozen non-ASCII characters that the standard library's `char` predicates class with digits, letters or blanks: digits of other scripts, superscripts, fractions, letter-like numerals, the Kelvin sign, full-width forms, no-break and ideographic spaces, dashes). Oracle: never panics; a string the strict reference reader accepts as a sane position must import as exactly that position (fields 1-4, hash by the key-file combiner, legal list); any other string must be refused, or be imported as the position its most lenient documented reading (canonicalisation T) describes. About 1 case in 250 is also sent to the real binary (`position fen S`, `isready`, `show`, `quit`). Thorough adds a libFuzzer campaign on the same oracle. evaluations = strings judged. Non-trivial: a mutant the strict reader rejects and whose canonical form differs from the unedited text's; distinct by string; classes by field reported.".into()
     }
 
     fn assumptions(&self) -> Vec<String> {
